@@ -170,7 +170,7 @@ class Ctx:
         s.pop()
         return r != z3.unsat       # unknown is treated as feasible (sound)
 
-    def known(self, cond):
+    def known(self, cond, timeout_ms=None):
         """True iff cond is valid under the path condition (False also on unknown)."""
         if isinstance(cond, bool):
             return cond
@@ -181,7 +181,11 @@ class Ctx:
         s = self.solver()
         s.push()
         s.add(z3.Not(cond))
+        if timeout_ms:
+            s.set('timeout', timeout_ms)
         r = s.check()
+        if timeout_ms:
+            s.set('timeout', SOLVER_TIMEOUT_MS)
         s.pop()
         res = (r == z3.unsat)
         self.cache_known[key] = (res, cond)     # keep the term alive: z3 reuses ids of freed terms
@@ -282,6 +286,10 @@ class Interp:
             imp = module.imports[name]
             if imp[0] == 'module':
                 return self.module_ref(imp[1])
+            if imp[1] == 'lentil' or imp[1].startswith('lentil.'):
+                sub = self.world.repo.module(imp[1] + '.' + imp[2])      # from lentil import fourier
+                if sub is not None:
+                    return ModuleRef(imp[1] + '.' + imp[2], sub)
             return self.module_attr(ctx, self.module_ref(imp[1]), imp[2])
         if name in module.assigns:
             key = (module.name, name)
